@@ -182,7 +182,10 @@ def run(ctx, res):
     strings += ["x\\", "\\", 'a"b', "a\\\\", "\\;B=x", '";X=1', '":X:1', "a\\:b"]
     # payload grammar: sequences of structural fragments, optionally wrapped in quotes / ending in a backslash
     frags = ['"', ";X-INJ=1", ":injected", ",", "\\", "a", "=", ";", ":", "\r", "'", " ", "%3B", "%3A", '";X-INJ="1',
-             "\r\nX-INJ:1", "BEGIN:VEVENT", "END:VEVENT", "\n"]
+             "\r\nX-INJ:1", "BEGIN:VEVENT", "END:VEVENT", "\n", "\x0bX-INJ:1", "\x0cEND:VEVENT", "\u2028X-INJ:1", "\x85X-INJ:1",
+             "\x1cX-INJ:1", "\x1e", "\u2029"]
+    strings += [b + inj for b in ("\x0b", "\x0c", "\x1c", "\x1d", "\x1e", "\x85", "\u2028", "\u2029")
+                for inj in ("X-INJ:1", "END:VEVENT", " folded")]
     for _ in range(6000 if ctx.big else 700 * (1 + 3 * ctx.level)):
         body = "".join(rng.choice(frags) for _ in range(rng.randrange(1, 6)))
         w = rng.random()
@@ -244,6 +247,16 @@ def run(ctx, res):
                 res.fail("C05 injection: parse of the library's own output raised " + type(e).__name__, [slot, s])
                 continue
             got = shape(back)
+            # the reader of several calendars reads the same text as the same tree
+            try:
+                several = icalendar.Calendar.from_ical(data, multiple=True)
+                got_m = [shape(x) for x in several]
+            except Exception as e:  # noqa: BLE001
+                got_m = type(e).__name__
+            if got_m != [got]:
+                res.fail("C05 injection: from_ical(text, multiple=True) reads the library's own output as another tree than "
+                         "from_ical(text)", [slot, s], observed=got_m, expected=[got])
+                continue
             if got == intended:
                 continue
             if got == remove_prop(intended, [0], pname) and back.subcomponents and back.subcomponents[0].errors:
